@@ -174,7 +174,7 @@ def replay(w, ctx):
 def floors(m, tier):
     out = []
     c, cov = m['counters'], m['cover']
-    need = 1100 if tier == 'quick' else 20000
+    need = 1100 if tier == 'quick' else 15000
     if c.get('solver_runs', 0) < need:
         out.append('only %d solver runs' % c.get('solver_runs', 0))
     for k in ('type_ha_one', 'type_sm_two', 'type_hr_two', 'type_spa_one', 'type_spa_two', 'lp_feasible', 'lp_infeasible',
